@@ -19,20 +19,29 @@ import (
 // C16: frames with dependent blocks decode exactly across the 64 KiB window.
 
 type c16Case struct {
-	Spec gen.FrameSpec `json:"spec"`
-	R    rcfg          `json:"reader"`
+	Spec gen.FrameSpec   `json:"spec"`
+	R    rcfg            `json:"reader"`
+	Prev []gen.FrameSpec `json:"prev,omitempty"` // frames the same Reader has decoded before (Reset in between)
 }
 
 func runC16(c c16Case, rec *stat.Rec) *stat.Failure {
 	z, content := c.Spec.Build()
+	var prev [][]byte
+	for _, p := range c.Prev {
+		pz, _ := p.Build()
+		prev = append(prev, pz)
+	}
+	if len(prev) > 0 {
+		rec.Class("reader/reused-after-other-frames")
+	}
 	// the encoder's own bookkeeping is cross-checked by the independent parser
 	fr := ref.ParseFrame(z, ref.Strict)
 	if !fr.OK() || !bytes.Equal(fr.Content, content) {
 		return stat.Failf("harness-problem", "generated frame is not valid per the reference parser: %s", fr.Err)
 	}
 	rec.Eval()
-	res := readAll(z, c.R, nil)
-	desc := fmt.Sprintf("%d blocks, %d content bytes, reader %+v", len(c.Spec.Blocks), len(content), c.R)
+	res := readAllAfter(prev, z, c.R, nil)
+	desc := fmt.Sprintf("%d blocks, %d content bytes, reader %+v, %d earlier frames on the same Reader", len(c.Spec.Blocks), len(content), c.R, len(prev))
 	if res.Err != nil {
 		return stat.Failf("C16/valid-dependent-frame-rejected/"+errClass(res.Err), "%s: %v after %d bytes", desc, res.Err, len(res.Out))
 	}
@@ -145,6 +154,12 @@ func drawC16(t *rapid.T) c16Case {
 	c.Spec = gen.DrawFrameSpec(t, p)
 	bs := ref.BlockMaxOfCode(c.Spec.BSCode)
 	c.R = drawRcfg(t, bs)
+	if rapid.IntRange(0, 3).Draw(t, "reused?") == 0 {
+		// the Reader has decoded one or two other frames before (dependent or not, other block maxima)
+		for k := rapid.IntRange(1, 2).Draw(t, "nprev"); k > 0; k-- {
+			c.Prev = append(c.Prev, gen.DrawFrameSpec(t, gen.FrameParams{Dependent: 1, MaxBlocks: 3, MaxBlockLen: 3000}))
+		}
+	}
 	return c
 }
 
@@ -153,12 +168,29 @@ func init() { register("C16", "C16/dependent", runC16) }
 const c16Rule = "frames built by the independent encoder with the dependent-blocks flag: runs of up to 60 tiny blocks, blocks up to the block maximum (4 MiB in the thorough tier), matches whose offset " +
 	"is the furthest the window allows (65535 once it is full), matches that reach just across the start of their block, raw blocks in between, with/without block and content checksums and size; " +
 	"read with concurrency {1,2,4,GOMAXPROCS} through Read (sizes from {1,7,4095,bs-1,bs,bs+1,2bs,whole}: direct and buffered paths) or WriteTo, with source fragmentation. The expected content is " +
-	"known by construction and cross-checked by the independent parser. Pinned: the repository's linked-block golden file (self-validating through its content checksum). Non-trivial = >= 1 " +
+	"known by construction and cross-checked by the independent parser. One case in four runs on a Reader that has decoded one or two other frames before (Reset in between). Pinned: the repository's linked-block golden file (self-validating through its content checksum). Non-trivial = >= 1 " +
 	"match reaching into a previous block; distinct by hash(frame, reader)."
 
 func TestC16Pinned(t *testing.T) {
 	rec := stat.For("C16")
 	rec.SetRule(c16Rule)
+	// a Reader reused across dependent frames with growing block maxima: the second frame has blocks that are larger than
+	// anything the first one needed (what the object keeps from the first stream must not bound the second)
+	for _, conc := range []int{1, 2, 4} {
+		for _, wt := range []bool{false, true} {
+			small := gen.FrameSpec{Version: 1, BlockIndep: false, ContentSum: true, BSCode: 4, Blocks: []gen.BlockSpec{
+				{Seqs: []gen.SeqSpec{{LitN: 400, LitSeed: 1, LitKind: "text"}}},
+				{Seqs: []gen.SeqSpec{{LitN: 2, LitSeed: 2, LitKind: "text", Off: 300, MLen: 200}, {LitN: 6, LitSeed: 3, LitKind: "text"}}}}}
+			for _, code := range []int{5, 7} {
+				bigger := gen.FrameSpec{Version: 1, BlockIndep: false, ContentSum: true, BSCode: code, Blocks: []gen.BlockSpec{
+					{Raw: true, RawN: 200000, RawSeed: 5},
+					{Seqs: []gen.SeqSpec{{LitN: 3, LitSeed: 6, LitKind: "text", Off: 65000, MLen: 5000}, {LitN: 150000, LitSeed: 7, LitKind: "rand", Off: 100, MLen: 20}, {LitN: 8, LitSeed: 8, LitKind: "text"}}},
+					{Seqs: []gen.SeqSpec{{LitN: 1, LitSeed: 9, LitKind: "text", Off: 40000, MLen: 70}, {LitN: 12, LitSeed: 10, LitKind: "text"}}}}}
+				pinned(t, "C16", "C16/dependent", c16Case{Spec: bigger, R: rcfg{Conc: conc, WriteTo: wt, Sizes: []int{65536}}, Prev: []gen.FrameSpec{small}}, runC16)
+				pinned(t, "C16", "C16/dependent", c16Case{Spec: small, R: rcfg{Conc: conc, WriteTo: wt, Sizes: []int{4096}}, Prev: []gen.FrameSpec{bigger, small}}, runC16)
+			}
+		}
+	}
 	z, err := os.ReadFile(filepath.Join(repoDir(), "testdata", "Mark.Twain-Tom.Sawyer_linked.txt.lz4"))
 	if err != nil {
 		t.Fatalf("HARNESS: %v", err)
@@ -257,9 +289,14 @@ func TestC16Huge(t *testing.T) {
 	}
 	var z []byte
 	z = append(z, 0x04, 0x22, 0x4D, 0x18)
-	desc := []byte{0x40 | 0x04, 0x70} // version 01, dependent blocks, content checksum; 4 MiB
+	// version 01, dependent blocks, content size (known: 1025 full blocks), content checksum (thorough only); 4 MiB
+	const hugeTotal = uint64(1025) * bs // (a multiple of the block size: the declared size modulo 2^32 is a block boundary as well)
+	desc := []byte{0x40 | 0x08 | 0x04, 0x70}
 	if !full {
-		desc[0] = 0x40
+		desc[0] = 0x40 | 0x08
+	}
+	for k := 0; k < 8; k++ {
+		desc = append(desc, byte(hugeTotal>>(8*uint(k))))
 	}
 	z = append(z, desc...)
 	z = append(z, byte(ref.XXH32(desc, 0)>>8))
@@ -279,10 +316,9 @@ func TestC16Huge(t *testing.T) {
 		pos += uint64(size)
 	}
 	add(block(0, bs, pattern), bs)
-	for i := 1; i < 1024; i++ {
+	for i := 1; i < 1025; i++ {
 		add(block(pos, bs, nil), bs)
 	}
-	add(block(pos, 105, nil), 105)
 	z = append(z, 0, 0, 0, 0)
 	readers := []rcfg{{Conc: 1, WriteTo: true}}
 	if full {
@@ -302,7 +338,7 @@ func TestC16Huge(t *testing.T) {
 			_, err = io.CopyBuffer(struct{ io.Writer }{sink}, struct{ io.Reader }{r}, make([]byte, rc.Sizes[0]))
 		}
 		if err != nil || sink.n != pos || sink.bad >= 0 {
-			f := stat.Failf("C16/huge-dependent-frame", "frame of %d bytes, %d content bytes (1025 dependent blocks, offset 65535), reader %+v: err=%v, %d bytes delivered, first wrong byte at %d", len(z), pos, rc, err, sink.n, sink.bad)
+			f := stat.Failf("C16/huge-dependent-frame", "frame of %d bytes, %d content bytes (1025 full dependent blocks, offset 65535), reader %+v: err=%v, %d bytes delivered, first wrong byte at %d", len(z), pos, rc, err, sink.n, sink.bad)
 			judge(t, "C16", "C16/huge", rc, f)
 		}
 		rec.NonTrivial(stat.FP("huge", fmt.Sprint(rc)))
